@@ -165,6 +165,31 @@ fn one_subset(run: &Run, a: &Arch, case: u64, si: usize, d: &[u32]) {
         }
         crate::scratch::rm(&r.arch);
     }
+    // a gc lock that is already there (another collector at work, or a stale one): refuse, and
+    // change nothing - in particular leave that lock alone; tried with process-exit semantics
+    // and with a caller that keeps its runtime alive
+    for (dry, linger) in [(true, false), (false, true)] {
+        let arch = a.world.sc.fresh("locked");
+        fmt06::copy_dir(&a.world.arch, &arch);
+        std::fs::write(arch.join("GC_LOCK"), b"{}\n").unwrap();
+        let before_locked = fmt06::dir_bytes(&arch);
+        let run_it = || cs::delete(cs::local(&arch), &arch, d, dry, false);
+        let out = if linger { cs::with_linger(run_it) } else { run_it() };
+        run.eval();
+        run.count("refusals_with_lock_held", 1);
+        let rp = json!({"case": case, "subset": si, "delete": d, "lock_held": true, "dry_run": dry});
+        if out.ok() {
+            run.violation("delete-not-refused-while-locked", format!("delete {d:?} dry={dry} returned Ok although GC_LOCK exists"), rp);
+        } else if fmt06::dir_bytes(&arch) != before_locked {
+            let gone = !arch.join("GC_LOCK").exists();
+            run.violation(
+                if gone { "refused-delete-removed-foreign-lock" } else { "refused-delete-changed-archive" },
+                format!("delete {d:?} dry={dry} was refused ({}) but changed the archive{}", out.describe(), if gone { ": the GC_LOCK it did not own is gone" } else { "" }),
+                rp,
+            );
+        }
+        crate::scratch::rm(&arch);
+    }
     // the real, fault-free delete
     let r = run_delete(a, d, false, Mode::Log);
     run.eval();
@@ -354,7 +379,7 @@ pub fn run(tier: Tier, replay: Option<Value>) -> i32 {
         }
     });
     run.finish(
-        "archives from short histories (2-4 versions sharing combined blocks, optionally an interrupted band in the middle and garbage blocks from a hand-removed band); for each, every subset D of the bands when <= 4 (else 8 incl. none and all) x {dry run, real}. Real runs: the fault-free delete must remove exactly D, leave other band directories byte-identical, leave exactly the blocks referenced by the remaining bands' own hunks (independent scan) and every kept complete version must restore exactly; then EVERY crash point k of the delete's trace and EVERY read/list_dir/metadata operation failing with each of 4 kinds: kept complete versions still restore exactly and no kept band has a dangling reference. Distinct = (history, D).",
+        "archives from short histories (2-4 versions sharing combined blocks, optionally an interrupted band in the middle and garbage blocks from a hand-removed band); for each, every subset D of the bands when <= 4 (else 8 incl. none and all) x {dry run, real}; with a GC_LOCK already present every delete must be refused and leave the archive (that lock included) byte-identical. Real runs: the fault-free delete must remove exactly D, leave other band directories byte-identical, leave exactly the blocks referenced by the remaining bands' own hunks (independent scan) and every kept complete version must restore exactly; then EVERY crash point k of the delete's trace and EVERY read/list_dir/metadata operation failing with each of 4 kinds: kept complete versions still restore exactly and no kept band has a dangling reference. Distinct = (history, D).",
         &["kill = no later storage effect", "E2 reader trusted"],
         Some(true),
         &[("real_deletes", 10), ("crash_points", 100), ("read_faults", 100), ("deletes_that_removed_blocks", 3), ("kept_versions_restored_after_fault", 50)],
